@@ -93,6 +93,22 @@ def C03.holds (c : Ctx) (j : Journal) : Bool :=
   let adds := (j.filter (isTaintAdd c.view)).length
   adds = 0 || ((untaintedCount c : Int) - adds ≥ c.st.minEff)
 
+/-- C03 with a stale listing: a node the scan *sees* as untainted but whose fresh GET in this very scan shows it
+    already tainted is not untainted afterwards either. Counting those together with the nodes the scan tainted,
+    at least min_nodes of the untainted nodes seen must remain. `paired`: journal entries with their responses. -/
+def C03.staleBad (c : Ctx) (paired : List (Entry × Resp)) : List String :=
+  let unt := nodesOf c.dry c.st .untainted c.view.nodes
+  let j := paired.map (·.1)
+  let added := (j.filter (isTaintAdd c.view)).filterMap (fun e => match e.call with | .updateNode o => some o.name | _ => none)
+  let already := paired.filterMap (fun (e, r) => match e.call, r with
+    | .getNode _, .node n => if hasTaint escKey n && unt.any (fun u => u.name == n.name) then some n.name else none
+    | _, _ => none)
+  let gone := (added ++ already).eraseDups
+  if c.dry || added.isEmpty || already.isEmpty then []
+  else if (unt.length : Int) - gone.length ≥ c.st.minEff then []
+  else ["of the " ++ toString unt.length ++ " untainted nodes seen, " ++ toString added ++ " were tainted and " ++ toString already.eraseDups ++
+        " turned out to be tainted already: fewer than min_nodes=" ++ toString c.st.minEff ++ " remain"]
+
 /-! ### C04 -/
 
 def bound (c : Ctx) : Int := if c.st.maxEff < c.g.asg.max then c.st.maxEff else c.g.asg.max
@@ -296,9 +312,11 @@ def firstBatch (g : PGroup) (fc : List Node) (r : Journal) : Journal × Journal 
 def okDecs (j : Journal) : Nat := j.countP isOkDecTerminate
 
 /-- Did this batch stop because the next candidate is not a member of the cloud group? -/
-def stoppedAtNonMember (g : PGroup) (cands : List Node) (batch : Journal) : Bool :=
+def stoppedAtNonMember (g : PGroup) (cands : List Node) (batch : Journal) (ran : Bool := false) : Bool :=
   let terms := batch.takeWhile isTerminateEntry
-  !terms.isEmpty &&      -- evidence that the batch ran at all (a stop at position 0 leaves no trace in the journal)
+  -- evidence that the batch ran at all (a stop at position 0 leaves no trace in the journal): a terminate call,
+  -- or — `ran` — something that only happens after the reaper (the taint-adds of the same ScaleDown)
+  (!terms.isEmpty || ran) &&
   terms.all (·.ok) && (batch.dropWhile isTerminateEntry).isEmpty &&
   (match cands[terms.length]? with | some x => !belongs g x | none => false) &&
   decide (g.asg.desired > g.asg.min) && decide (g.asg.desired - cands.length ≥ g.asg.min)
@@ -319,7 +337,7 @@ def C19.scanBad (c : Ctx) (j : Journal) (fatalHere : Bool) : List String :=
   (if try2 b1 b2 then [] else ["order"]) ++
   (if decr then [] else ["decrement"]) ++
   (if stoppedAtNonMember c.g fc b1 && !fatalHere then ["notingroup-force"] else []) ++
-  (if stoppedAtNonMember g2 rc b2 && !fatalHere then ["notingroup-reap"] else [])
+  (if stoppedAtNonMember g2 rc b2 (j.any (isTaintAdd c.view)) && !fatalHere then ["notingroup-reap"] else [])
 
 end Spec
 end Esc
@@ -451,6 +469,31 @@ def C07.amountGo (view : View) (want : Int) : Int → Nat → Journal → Bool
     C07.amountGo view want (if isOkDecTerminate e then cur - 1 else cur) (if isTaintRemove view e && e.ok then u + 1 else u) es
 
 def C07.amountHolds (c : Ctx) (want : Int) (j : Journal) : Bool := C07.amountGo c.view want c.g.asg.desired 0 j
+
+/-- The other direction: a scan that decided it needs `want ≥ 1` more nodes (group unlocked, node count within bounds)
+    brings exactly that many into service unless the bound or a refused/failed cloud request stops it: after `u`
+    accepted untaints it must ask the cloud for `min(want − u, bound − current desired)` when that is positive. -/
+def C07.shortfall (c : Ctx) (want : Int) (j : Journal) : List String :=
+  let n : Int := c.view.nodes.length
+  if c.dry || want < 1 || lockHeld c.st.lock c.cfg.coolNs c.nowReal || n < c.st.minEff || n > c.st.maxEff then []
+  else
+    -- nodes the code may count as untainted: tainted in the view, fetched successfully, and no UPDATE of theirs failed
+    -- (a node found already untainted needs no UPDATE; one with two escalator taints keeps one after the UPDATE)
+    let taintedNames := (nodesOf c.dry c.st .tainted c.view.nodes).map (·.name)
+    let fetched := (j.filterMap (fun e => match e.call with | .getNode x => if e.ok && taintedNames.contains x then some x else none | _ => none)).eraseDups
+    let failedUpd := j.filterMap (fun e => match e.call with | .updateNode o => if e.ok then none else some o.name | _ => none)
+    let u : Int := (fetched.filter (fun x => !failedUpd.contains x)).length
+    let cur : Int := c.g.asg.desired - okDecs j
+    let bnd : Int := if c.st.maxEff < c.g.asg.max then c.st.maxEff else c.g.asg.max
+    let expect : Int := min (want - u) (bnd - cur)
+    let asked : List Int := j.filterMap (fun e => match e.call with
+      | .setDesired _ v => some (v - cur)
+      | .createFleet r => some r.total
+      | _ => none)
+    if expect ≤ 0 then []
+    else match asked with
+      | [] => ["needed " ++ toString want ++ ", untainted " ++ toString u ++ ", but asked the cloud for nothing (room for " ++ toString (bnd - cur) ++ ")"]
+      | a :: _ => if a < expect then ["needed " ++ toString want ++ ", untainted " ++ toString u ++ ", asked the cloud for only " ++ toString a] else []
 
 end Spec
 end Esc
